@@ -304,7 +304,7 @@ Section Cancel.
 
   (* what a frame of the chart task does to the helper tasks *)
   Lemma main_step_cancelled fr sg st :
-    main_cls (cls_of fr) = true -> all_cancelled st ->
+    main_frame fr = true -> all_cancelled st ->
     all_cancelled (fst (step_frame P main_tid fr sg st))
     \/ (fr = FChartAfterStart /\ snd (step_frame P main_tid fr sg st) = DCont [FRunWait; FChartAfterRun] SGo).
   Proof.
@@ -354,7 +354,7 @@ Section Cancel.
       pose proof (step_frame_dir_ok P main_tid fr sg' s) as Hdir.
       pose proof (step_frame_tasks_ok P stack_TP stack_TP_wake stack_TP_cancel_ready stack_TP_cancel_wait stack_TP_spawn main_tid fr sg' s Hn Hs) as Hs1.
       pose proof (evolves_trans _ _ _ He (ev_step_frame P main_tid fr sg' s)) as He1.
-      assert (Hmf : main_cls (cls_of fr) = true).
+      assert (Hmf : main_frame fr = true).
       { unfold main_stack in Hm. cbn [forallb] in Hm. apply andb_true_iff in Hm. apply Hm. }
       destruct Hd as [[Hk Hsg]|Hcan].
       + (* inside run(): the frame is FRunWait *)
